@@ -1429,7 +1429,11 @@ impl Machine for MQuant {
             .trim_start_matches("Stats { population: ")
             .trim_end_matches(" }")
             .parse::<u64>()
-            .unwrap_or(u64::MAX);
+            .unwrap_or_else(|_| match s.index(1.0) {
+                // fallback through the documented accessor: index(1.0) is the last index
+                Ok(i) => i as u64 + 1,
+                Err(_) => 0,
+            });
         o.push((What::Count(0), Val::U(pop)));
         for (qi, &q) in QUANTILES.iter().enumerate() {
             o.push((What::QIndex(qi as u8), Val::Idx(call(|| s.index(q), |i| i as u64))));
